@@ -1,6 +1,6 @@
 SPECIFICATION Spec
 CONSTANTS
-  Segs = {"", ".", "..", "a", "b.c", "d e"}
+  Segs = {"", ".", "..", "a", "b.c", "d e", "ab", "..a"}
   MaxLen = 5
   RootSet <- MCRoots
 INVARIANTS Incremental Canonical Idempotent Confined NoDotDotIsSafe
